@@ -7,7 +7,7 @@
   its type, fids, counts and offsets — is either refused without touching the implementation
   or leaves a well-formed fid table, and that nothing it does reaches another connection.
   Everything else that can take a Go process down (nil dereferences and type assertions in
-  unmodelled lines, the os package, concurrent requests on one fid) is found — not excluded —
+  unmodelled lines, the os package, what concurrent requests do to one fid's own fields) is found — not excluded —
   by the hostile sessions of the correspondence, which run the real server in the harness's
   own process.
 -/
@@ -16,6 +16,7 @@ import G9Proofs.Props.C04
 import G9Proofs.Props.C05
 import G9Proofs.Props.C12
 import G9Proofs.Props.C15
+import G9Proofs.Props.C11
 namespace G9.C06
 open G9
 
@@ -64,5 +65,22 @@ theorem any_request_keeps_table_wellformed (cfg : Srv.Cfg) (impl : Srv.Impl) (c 
 theorem other_connections_untouched (cfg : Srv.Cfg) (impl : Srv.Impl) (conns : Nat → Srv.Conn) (i j : Nat) (t : Msg)
     (h : j ≠ i) : (fun n => if n = i then (Srv.step cfg impl (conns i) t).fst else conns n) j = conns j :=
   C04.conn_private cfg impl conns i j t h
+
+/-- …and under concurrency (any interleaving of the regions of FidNew, FidGet, retain, IncRef,
+    DecRef, destroy and Conn.close, requests overlapping at will, fid numbers reused, the client
+    gone or not): the table only ever holds fid objects made for that number, every reference
+    count is exactly the references that are owned, the file server is never told twice that a
+    fid is destroyed, and never while it is still setting the fid up. -/
+theorem any_interleaving_keeps_table_wellformed (es : List FidLife.FEv) (s : FidLife.FS)
+    (h : FidLife.FS.init.run es = some s) :
+    (∀ k o, s.pool k = some o → o < s.n ∧ (s.obj o).num = k) ∧
+    (∀ o, o < s.n → (s.obj o).ref = ((s.obj o).holds : Int) + (if (s.obj o).tbl then 1 else 0)) ∧
+    (∀ o, o < s.n → (s.obj o).nd ≤ 1) ∧
+    (∀ o, o < s.n → (s.obj o).pending = true → 1 ≤ (s.obj o).holds → (s.obj o).nd = 0 ∧ (s.obj o).calls = 0) :=
+  ⟨fun k o hp => C04.table_entry_is_its_number es s h k o hp,
+   fun o ho => C11.refcount_is_owners es s h o ho,
+   fun o ho => C11.fid_destroyed_at_most_once es s h o ho,
+   fun o ho hp hh => ⟨(C11.no_destroy_while_being_created es s h o ho hp hh).1,
+                       (C11.no_destroy_while_being_created es s h o ho hp hh).2.1⟩⟩
 
 end G9.C06
